@@ -153,3 +153,40 @@ Theorem C03_example :
 Proof. exact apply_removes_abandoned_example. Qed.
 Print Assumptions C03_example.
 
+(* ---- along every history: the side conditions are an invariant of the reachable states
+   (Proofs/History.v: [state_ok], [op_ok], [run]; one version, identity converter, no ignore
+   configuration; histories of apply / forced apply / update by any number of managers) ---- *)
+From SMD Require Import Spec.RefDiff Proofs.RefDiffBoth Proofs.RefDiffLaws Proofs.RefDiffPresent Proofs.ApplyInv
+  Proofs.RefDiffChar Proofs.ReconcileCurrent Proofs.KeySync Proofs.History.
+Theorem C03_along_every_history :
+  forall (c : config) (R : typeref -> Prop) (ver : string) (ops : list hop) 
+           (mgr : string) (cfg : value) (force : bool) (o : option tv) 
+           (mf' : managed) (last : mrec) (fscfg : pset) (p : path),
+         setting_ok c R ver ->
+         Forall (op_ok c ver) ops ->
+         op_ok c ver (HApply mgr cfg force) ->
+         apply_op c (ver, fst (run c ver ops)) (ver, cfg) ver (snd (run c ver ops)) mgr force =
+         UOk (o, mf') ->
+         mf_get mgr (snd (run c ver ops)) = Some last ->
+         to_field_set (schema_of c ver) (tr_of c ver) cfg = Some fscfg ->
+         wf_path p = true ->
+         p <> [] ->
+         ps_has p (mr_set last) = true ->
+         (forall q : path,
+          In q (map fst (nodes (schema_of c ver) (tr_of c ver) cfg)) -> is_prefix p q = false) ->
+         ps_has p
+           (ps_en (schema_of c ver) (tr_of c ver)
+              (ApplyPrune.others_union mgr (snd (run c ver ops)))) = false ->
+         (present (schema_of c ver) (tr_of c ver) (fst (run c ver ops)) p = true ->
+          exists (r : path) (tr' : typeref) (x : value),
+            wf_path r = true /\
+            resolve_path (schema_of c ver) (tr_of c ver) (fst (run c ver ops)) (p ++ r) =
+            Some (RNode tr' x) /\ leafy (schema_of c ver) tr' x /\ x <> VList []) ->
+         present (schema_of c ver) (tr_of c ver)
+           match o with
+           | Some t => snd t
+           | None => fst (run c ver ops)
+           end p = false.
+Proof. exact apply_removes_abandoned_along_histories. Qed.
+Print Assumptions C03_along_every_history.
+
